@@ -50,6 +50,15 @@ def gen(rng, kind, tier):
     dim = int(rng.choice([1, 2, 2, 3]))
     nmax = {1: 12, 2: 12, 3: 7}[dim]
     spec = geom.rand_cart_spec(rng, dim, nmin=2, nmax=nmax, hmin=0.2, hmax=3.0, periodic=[True] * dim)
+    if dim <= 2 and rng.random() < 0.3:
+        # larger sizes, among them primes and sizes with large prime factors (13, 17, 19, 23, 26, 29, 31, 34, 37)
+        big = [13, 17, 19, 23, 26, 29, 31, 34, 37, 16, 20, 25, 27, 32]
+        a = int(rng.integers(dim))
+        n_new = int(rng.choice(big))
+        b = np.asarray(spec["bounds"], float)
+        h_a = (b[a, 1] - b[a, 0]) / spec["shape"][a]
+        spec["shape"][a] = n_new
+        spec["bounds"][a] = [float(b[a, 0]), float(b[a, 0] + h_a * n_new)]
     t = str(rng.choice(["noise", "noise-offset", "wave", "emulsion", "spike", "small", "large"]))
     f = {"type": t, "seed": int(rng.integers(1 << 30))}
     if t == "wave":
@@ -62,7 +71,15 @@ def gen(rng, kind, tier):
             "stretch": float(rng.choice([0.5, 2.0, 3.0, 0.1, 10.0])), "perm_seed": int(rng.integers(1 << 30))}
     if kind == "smooth":
         case["smoothing"] = "auto" if rng.random() < 0.5 else float(rng.uniform(0.05, 1.0))
-        case["wave_numbers"] = sorted(float(x) for x in rng.uniform(0.05, 6.0, int(rng.integers(1, 8))))
+        wn = [float(x) for x in rng.uniform(0.05, 6.0, int(rng.integers(1, 8)))]
+        order = rng.random()
+        if order < 0.4:
+            wn = sorted(wn)
+        elif order < 0.6:
+            wn = sorted(wn, reverse=True)
+        elif order < 0.8 and len(wn) >= 2:
+            wn = wn + [wn[0]]  # unordered, with a repeated value
+        case["wave_numbers"] = wn
     return case
 
 
@@ -241,9 +258,17 @@ def run(case, rec):
         k1, s1 = (np.asarray(x, float) for x in cr.result)
         rec.check(k1[0] == 0 and s1[0] == 1 and len(k1) == data.size, "add-zero", f"raw add_zero wrong: {k1[:2]}, {s1[:2]}; {label}")
     smax = max(float(np.nanmax(np.abs(s), initial=0)), 1e-300)
-    for name, arr in (("scale", data * case["scale"]), ("roll", np.roll(data, case["roll"], axis=tuple(range(dim)))),
-                      ("reflect", np.flip(data, axis=0))):
-        cc = common.monitored(rec, "get_structure_factor", sf, field_of(spec, arr), smoothing=sm, wave_numbers=wn)
+    variants = [("scale", spec, data * case["scale"]), ("roll", spec, np.roll(data, case["roll"], axis=tuple(range(dim)))),
+                ("reflect", spec, np.flip(data, axis=0))]
+    if dim > 1:
+        perm = list(np.random.default_rng(case["perm_seed"]).permutation(dim))
+        if perm == sorted(perm):
+            perm = perm[::-1]
+        sp2 = {"family": "cart", "bounds": [spec["bounds"][p_] for p_ in perm], "shape": [spec["shape"][p_] for p_ in perm],
+               "periodic": [True] * dim}
+        variants.append((f"permute axes {perm}", sp2, np.transpose(data, perm)))
+    for name, sp_v, arr in variants:
+        cc = common.monitored(rec, "get_structure_factor", sf, field_of(sp_v, arr), smoothing=sm, wave_numbers=wn)
         if rec.check(cc.ok, "no-exception", f"{name}: raised {cc.exc!r}; {label}"):
             s2 = np.asarray(cc.result[1], float)
             rec.check(bool(np.allclose(s2, s, rtol=0, atol=1e-10 * smax + 1e-13, equal_nan=True)), "invariance",
